@@ -4,3 +4,4 @@ import Props.C02
 #print axioms C02.locrib_refines
 #print axioms C02.withdraw_removes
 #print axioms C02.locrib_within_adjin
+#print axioms C02.adjin_within_locrib
